@@ -234,6 +234,10 @@ impl Evidence {
         for s in &self.inconclusive {
             println!("INCONCLUSIVE: {}", s);
         }
+        let unstopped = crate::sock::SERVERS_NOT_STOPPED.load(std::sync::atomic::Ordering::SeqCst);
+        if unstopped > 0 {
+            self.counters.insert("servers_that_did_not_stop_within_4s_of_the_stop_signal".into(), unstopped);
+        }
         let mut cov = Map::new();
         cov.insert("evaluations".into(), json!(self.evaluations));
         cov.insert("distinct_nontrivial".into(), json!(self.nontrivial.len()));
